@@ -72,6 +72,10 @@ def run_checks(patch, checks):
             r = sh(f"{env} timeout 3000 ./check {c} quick 2>&1 | tail -40", cwd=VERIF)
             lines = r.stdout.splitlines()
             viol = [i for i, l in enumerate(lines) if l.startswith("VIOLATION")]
+            if not viol and not any(" runs (" in l for l in lines):
+                # the check itself did not run (build failure, harness error): not a verdict
+                res[c] = {"caught": False, "violations": 0, "harness_error": True, "seconds": round(time.time() - t0, 1), "first": "CHECK DID NOT RUN: " + " | ".join(lines[-3:])[:300]}
+                continue
             res[c] = {
                 "caught": len(viol) > 0,
                 "violations": len(viol),
